@@ -650,3 +650,73 @@ Section History.
       destruct (IH _ Hi') as [IH1 IH2]. split; [exact IH1|]. rewrite IH2, app_length. cbn [length]. lia.
   Qed.
 End History.
+
+(* ---------------------------------------------------- further consequences of ValidCSR *)
+
+Lemma ValidCSR_rows_nondecr c : ValidCSR c -> NonDecr (bin1 c) /\ Forall (fun x => 0 <= x < nbins c) (bin1 c).
+Proof.
+  intros (L1 & L2 & L3 & Hs & Hr & _).
+  assert (Hlen : length (bin1 c) = length (bin2 c) /\ length (bin1 c) = length (counts c)) by (unfold zlen in *; lia).
+  assert (Hrow : map row (pixels_of c) = bin1 c).
+  { unfold pixels_of. destruct Hlen as [Ha Hb]. revert Ha Hb.
+    generalize (bin1 c) (bin2 c) (counts c). intros l1.
+    induction l1 as [|x t IH]; intros [|y t2] [|z t3] Ha Hb; cbn [length] in *; try lia; [reflexivity|].
+    cbn [combine map]. unfold row at 1. cbn [fst]. f_equal. apply IH; lia. }
+  split.
+  - rewrite <- Hrow. now apply ssorted_rows_nondecr.
+  - rewrite <- Hrow, Forall_map, Forall_forall. intros p Hp. apply Hr in Hp. lia.
+Qed.
+
+(** re-indexing a valid collection reproduces its stored index (whatever the block size) *)
+Theorem reindex_valid c cs : ValidCSR c -> 0 <= nchroms c -> 1 <= cs ->
+  index_pixels_c cs (bin1 c) (nbins c) (nnz c) = Some (bin1_offset c) /\
+  index_pixels (bin1 c) (nbins c) (nnz c) = Some (bin1_offset c) /\
+  index_bins (bin_chrom c) (nchroms c) (nbins c) = Some (chrom_offset c).
+Proof.
+  intros Hv Hnc Hcs. destruct (ValidCSR_rows_nondecr c Hv) as [Hnd Hrg].
+  destruct Hv as (L1 & L2 & L3 & Hs & Hr & Hu & Ho & Lc & Hcn & Hcr & Hco & Hsum).
+  assert (Hpos : Forall (fun x => 0 <= x) (bin1 c)) by (eapply Forall_impl; [|exact Hrg]; cbn; intros; lia).
+  assert (Hnb : 0 <= nbins c) by (rewrite <- Lc; apply zlen_nonneg).
+  assert (Hcpos : Forall (fun x => 0 <= x) (bin_chrom c)) by (rewrite Forall_forall; intros x Hx; apply Hcr in Hx; lia).
+  rewrite Ho, Hco, <- L1. repeat split.
+  - now apply index_pixels_c_spec.
+  - now apply index_pixels_spec.
+  - rewrite <- Lc at 1. now apply index_bins_spec.
+Qed.
+
+(** in a valid collection the pixels of row b are exactly those at positions
+    bin1_offset[b] <= k < bin1_offset[b+1] *)
+Theorem ValidCSR_row_span c b k : ValidCSR c -> (k < length (bin1 c))%nat -> 0 <= b < nbins c ->
+  (nth (Z.to_nat b) (bin1_offset c) 0 <= Z.of_nat k < nth (Z.to_nat (b + 1)) (bin1_offset c) 0
+   <-> nth k (bin1 c) 0 = b).
+Proof.
+  intros Hv Hk Hb. destruct (ValidCSR_rows_nondecr c Hv) as [Hnd _].
+  destruct Hv as (_ & _ & _ & _ & _ & _ & Ho & _). rewrite Ho.
+  rewrite !offsets_of_nth by lia. rewrite !Z2Nat.id by lia. now apply csr_row_iff.
+Qed.
+
+(* ------------------------------------------------ the hypotheses are necessary (refutations) *)
+
+(** without sortedness the loop does not compute the counting index *)
+Theorem index_pixels_unsorted_refuted :
+  exists a n, Forall (fun x => 0 <= x < n) a /\ index_pixels a n (zlen a) <> Some (offsets_of n a).
+Proof.
+  exists [1; 0], 2. split; [repeat constructor; lia|]. vm_compute. discriminate.
+Qed.
+
+(** the statement "whatever create() stores is valid" is false once the bounds check is switched
+    off (as `cooler cload pairs` does): a strictly sorted upper-triangular stream with a bin id equal
+    to nbins (known finding D2) is stored, indexed, and is not a valid collection *)
+Theorem create_unchecked_refuted :
+  exists nc chroms px, 0 <= nc /\ NonDecr chroms /\ (forall x, In x chroms -> 0 <= x < nc) /\
+    SSorted px /\ (forall p, In p px -> row p <= col p) /\
+    exists c, create_model nc chroms px true = Some c /\ ~ ValidCSR c.
+Proof.
+  exists 1, [0; 0], [((0, 1), 5); ((1, 2), 7)].
+  split; [lia|]. split; [apply nondecr_b_spec; reflexivity|].
+  split; [intros x [<-|[<-|[]]]; lia|].
+  split; [apply ssorted_b_spec; reflexivity|].
+  split; [intros p [<-|[<-|[]]]; cbn; lia|].
+  eexists. split; [vm_compute; reflexivity|].
+  rewrite <- valid_csr_b_spec. vm_compute. discriminate.
+Qed.
